@@ -296,12 +296,63 @@ def work_files(task):
     return ev
 
 
+def work_archives(task):
+    """A file of several modules: an ar archive of two to four generated objects.  The raw view lists every unit and
+    every DIE of every member -- the members' own lists one after the other (in whatever order the members come),
+    nothing dropped, nothing twice."""
+    import itertools
+    from .c18 import ar_archive
+    seed, start, count = task
+    ev = Evidence()
+    drv = Driver(timeout=120)
+    try:
+        for i in range(start, start + count):
+            rnd = random.Random((seed << 32) ^ (i * 2654435761 & 0xffffffff) ^ 0xA02)
+            forests = [DF.ForestGen(rnd, DF.FCfg(max_units=rnd.choice([1, 2, 4]), max_dies=rnd.choice([5, 15, 30]))).forest() for _ in range(rnd.randint(2, 4))]
+            datas = [build_file(f) for f in forests]
+            arch = ar_archive([("m%d.o" % k, d) for k, d in enumerate(datas)])
+            want_e = [[(d.offset, d.tag) for d in DF.raw_entries(f)] for f in forests]
+            want_u = [len(f.units) for f in forests]
+            try:
+                with TempElf(arch) as path:
+                    tok = "V%d" % drv.open(path, True)
+                    e = drv.run("entry offset", tok, limit=5000, steps=20000000)
+                    l = drv.run("entry label", tok, limit=5000, steps=20000000)
+                    u = drv.run("unit root offset", tok, limit=5000, steps=20000000)
+            except (DriverTimeout, RuntimeError):
+                ev.inconc("archive: watchdog or cannot open")
+                continue
+            except DriverCrash as ex:
+                ev.violations.append({"property": PID, "elf_hex": arch.hex(), "reason": "driver crashed on an archive: " + ex.report[-2500:], "signature": "C02:ar-crash:%d" % i})
+                continue
+            ev.case(key=arch, nontrivial=True)
+            ev.label("archive")
+            why = None
+            if e.get("error") or u.get("error"):
+                why = "`entry` / `unit` on an archive fails: %r" % (e.get("error") or u.get("error"))
+            else:
+                got = list(zip([int(x[-1]["v"]) for x in e["res"]], [int(x[-1]["v"]) for x in l.get("res", [])]))
+                ok = any([x for k in perm for x in want_e[k]] == got for perm in itertools.permutations(range(len(forests))))
+                if not ok:
+                    why = "an archive of %d objects with %r DIEs: raw `entry` yields %d DIEs that are not the members' DIEs one member after the other" % (
+                        len(forests), [len(w) for w in want_e], len(got))
+                elif len(u["res"]) != sum(want_u):
+                    why = "an archive of %d objects with %r units: raw `unit` yields %d" % (len(forests), want_u, len(u["res"]))
+            if why:
+                ev.violations.append({"property": PID, "elf_hex": arch.hex()[:60000], "recipe": {"seed": seed, "index": i, "kind": "archive"}, "reason": why, "signature": "C02:ar:" + why[:50]})
+    finally:
+        drv.kill()
+    return ev
+
+
 def main(tier, seed):
     t0 = time.time()
     n = 6000 if tier == "quick" else 120000
     ev = Evidence()
     per = max(20, n // 48)
     ev.merge(run_pool(work_gen, [(seed, s, min(per, n - s)) for s in range(0, n, per)]))
+    na = 160 if tier == "quick" else 4000
+    ev.merge(run_pool(work_archives, [(seed, s_, min(10, na - s_)) for s_ in range(0, na, 10)]))
     samples = sorted(p for p in glob.glob("/repo/tests/*") if os.path.isfile(p) and open(p, "rb").read(4) == b"\x7fELF")
     chunks = [samples[i::8] for i in range(8)]
     combos = [(cc, ver, opt, lang) for cc in ("gcc", "clang") for ver in ("2", "3", "4", "5") for opt in ("-O0", "-O1") for lang in ("c", "c++")]
@@ -316,6 +367,7 @@ def main(tier, seed):
                                "llvm-dwarfdump -v is the independent reader for files not generated here"],
                   health={"generator self-test ran and passed": ev.labels.get("generator-self-test", 0) > 0 and not ev.labels.get("generator-self-test-FAILED"),
                           "edge shapes generated": all(ev.labels.get("gen:" + k, 0) > 0 for k in ("empty-unit", "childless-with-children-flag", "sibling-attribute", "form-indirect", "shared-abbrev-unit")),
+                          "archives of several objects": ev.labels.get("archive", 0) >= 100,
                           "sample binaries checked": ev.labels.get("sample-binary", 0) >= 10,
                           "compiled objects checked": ev.labels.get("compiled-object", 0) >= 6})
 
